@@ -1,5 +1,5 @@
 """WAL engine: record log wire format, LogWriter flush loop, WAL failover.
-  C18  RecordLog.tla   design: byte-level model exhaustive (scaled-down constants) + Bug cfgs
+  C18  RecordLog.tla   design: chunk-level wire-format/reader model, exhaustive (scaled-down constants) + Bug cfgs
                        mode A: TLC enumerates boundary-class cases with the real constants, the in-package
                        `record` driver executes them on the real Writer/LogWriter/Reader, TLC (RecordLogTrace)
                        decides.
@@ -224,7 +224,8 @@ def run_c20(run):
             evs = [json.loads(l) for l in r]
             rel = [i for i, e in enumerate(evs) if e["op"] == "released" and not e["err"]]
             se = [i for i, e in enumerate(evs) if e["op"] == "syncend" and not e["err"]]
-            if rel and se and se[0] < rel[0]:
+            # exactly one successful sync precedes the first clean release: dropping it must break that release
+            if rel and se and se[0] < rel[0] and sum(1 for i in se if i < rel[0]) == 1 and evs[rel[0]]["synced"] > 0:
                 demo = (r, evs, rel[0], se[0])
                 break
         if demo is None:
@@ -438,7 +439,7 @@ def run_c18(run):
                     c["oldsizes"] = sizes + [rng.choice([BS, 100, 2 * BS + 1]), 2 * BS]
                 else:
                     c["oldsizes"] = [rng.choice([40000, 100, BS - 19, 7000]) for _ in range(3)] + [ln + BS]
-                c["oldlog"] = rng.choice([6, 6, 5, 3])
+                c["oldlog"] = rng.choice([6, 6, 4, 2])   # even: payload bytes disjoint from the new (odd) log
                 c["oldfmt"] = fmt if rng.random() < .7 else "recyclable"
             cases.append(c)
     for i, c in enumerate(cases):
@@ -485,7 +486,7 @@ def run_c19(run):
     rng.shuffle(lays)
     multi = [L for L in lays if L["len"] > BS]
     single = [L for L in lays if L["len"] <= BS]
-    lays = (multi[:140] + single[:25]) if quick else (multi[:3000] + single[:300])
+    lays = (multi[:100] + single[:15]) if quick else (multi[:3000] + single[:300])
     cases = []
     for L in lays:
         sizes, ln, chunks = L["sizes"], L["len"], L["chunks"]
@@ -658,14 +659,19 @@ def run_c21(run):
     if problems > max(3, len(cases) // 20):
         raise vlib.Inconclusive("wal driver: %d of %d schedules could not be executed (stuck Close or setup error):\n%s"
                                 % (problems, len(cases), "\n".join(l for l in out.splitlines() if "C21-PROBLEM " in l)[:1500]))
-    good = [r for r in runs if not any('"op":"fstuck"' in l for l in r) and any('"op":"fread"' in l for l in r)]
+    good = [r for r in runs if any('"op":"fpanic"' in l for l in r)
+            or (not any('"op":"fstuck"' in l for l in r) and any('"op":"fread"' in l for l in r))]
+    for r in good:      # a panicking run ends at the panic event
+        k = [i for i, l in enumerate(r) if '"op":"fpanic"' in l]
+        if k:
+            r[k[0] + 1:] = ['{"op":"reset"}']
 
     def describe(lines, off):
         w = [json.loads(l) for l in lines if '"op":"fwrote"' in l]
         rel = [json.loads(l)["seq"] for l in lines[:off] if '"op":"freleased"' in l and '"err":false' in l]
         return "written seqs %s (count>0: %s), released-ok before the read %s, read: %s" % (
             [x["seq"] for x in w], [x["seq"] for x in w if x["count"] > 0], rel, lines[off][:300])
-    acc, events, rej = validate_runs(run, FO, "FailoverTrace", "FailoverTrace.cfg", good, {"fread"}, "C21", keep_name="c21", describe=describe, heap="3g")
+    acc, events, rej = validate_runs(run, FO, "FailoverTrace", "FailoverTrace.cfg", good, {"fread", "fpanic"}, "C21", keep_name="c21", describe=describe, heap="3g")
     _t("TLC validated", t0)
     run.traces += acc
     if rej == 0:
@@ -694,7 +700,10 @@ def run_c21(run):
     for r in good:
         evs = [json.loads(l) for l in r]
         sw = sum(1 for e in evs if e["op"] == "fswitch")
-        rd = [e for e in evs if e["op"] == "fread"][0]
+        rds = [e for e in evs if e["op"] == "fread"]
+        if not rds:
+            continue
+        rd = rds[0]
         if rd["crashed"]:
             crash += 1
         flat = [x for sg in rd.get("segs", []) for x in sg]
